@@ -2,6 +2,7 @@ package rules
 
 import (
 	"go/ast"
+	"go/token"
 	"go/types"
 	"strings"
 
@@ -285,6 +286,25 @@ func c15r4(c *Ctx) {
 					}
 					// receiver must be an element of the list: list[i] with i the range key, or the range value
 					rcv := ast.Unparen(call.Recv())
+					// (through an address-of and a conversion to a constrained pointer type: `P(&list[i]).ValidSignature`)
+					for k := 0; k < 4; k++ {
+						switch t := rcv.(type) {
+						case *ast.CallExpr:
+							if tv, ok := f.Info().Types[t.Fun]; ok && tv.IsType() && len(t.Args) == 1 {
+								rcv = ast.Unparen(t.Args[0])
+								continue
+							}
+						case *ast.UnaryExpr:
+							if t.Op == token.AND {
+								rcv = ast.Unparen(t.X)
+								continue
+							}
+						case *ast.StarExpr:
+							rcv = ast.Unparen(t.X)
+							continue
+						}
+						break
+					}
 					isElem := false
 					if ix, ok := rcv.(*ast.IndexExpr); ok && sameLvalue(f, ix.X, list) && rs.Key != nil && f.ObjOf(ix.Index) == f.ObjOf(rs.Key) {
 						isElem = true
